@@ -22,28 +22,28 @@ LIBC_DAG = ["malloc:verif_malloc_plan", "free:verif_free", "memset:verif_memset"
 SCENS = ((0, "nothing contracted"), (1, "section A contracted"), (2, "section B contracted"), (3, "both sections contracted"))
 JOBS = [
   Job("c19.file.layout", "c19_file.c", "h_file_layout", replace_calls=IO,
-      cbmc=["--unwind", "47", "--unwinding-assertions", "--sat-solver", "cadical"], safety=NOCONV, fuc=["dr_pi_dag_dump", "dr_read_dag"], timeout=200,
+      cbmc=["--unwind", "47", "--unwinding-assertions", "--sat-solver", "cadical"], safety=NOCONV, fuc=["dr_pi_dag_dump", "dr_read_dag"], timeout=600,
       note="complete for files of at most 2^48 bytes (64-bit size arithmetic / 52-bit pointer offsets do not wrap); loop-free except libc strcmp on the 45-byte version line, unwound to that constant"),
   Job("c19.strtab.flatten.bounded", "c19_file.c", "h_strtab_flatten", kind="bounded",
       replace_calls=["malloc:verif_malloc_st", "strlen:verif_strlen", "strcpy:verif_strcpy", "exit:verif_exit"],
-      cbmc=["--unwind", "10", "--unwinding-assertions", "--sat-solver", "cadical"], fuc=["dr_string_table_flatten", "dr_pi_dag_set_string_table"], timeout=200,
+      cbmc=["--unwind", "10", "--unwinding-assertions", "--sat-solver", "cadical"], fuc=["dr_string_table_flatten", "dr_pi_dag_set_string_table"], timeout=600,
       note="bounded: at most 8 strings (any number from 0 to 8), each shorter than 4096 bytes"),
   Job("c19.edge_cmp.lemmas", "c19_edges.c", "h_edge_cmp_lemmas", replace_calls=["exit:verif_exit"], fuc=["edge_cmp"], timeout=100,
       note="complete: loop-free, all values of (u, v) and of the kinds"),
   Job("c19.set_edge_ptrs.loops", "c19_edges.c", "h_set_edge_ptrs_lc", kind="bounded", replace_calls=["exit:verif_exit"],
       loops=L_EP, loop_counts={"dr_pi_dag_set_edge_ptrs": 3}, cbmc=["--unwind", str(LC_M + 3), "--unwinding-assertions", "--sat-solver", "cadical"], defines=["-DLC_N=%d" % LC_N, "-DLC_M=%d" % LC_M],
-      fuc=["dr_pi_dag_set_edge_ptrs"], timeout=250,
+      fuc=["dr_pi_dag_set_edge_ptrs"], timeout=750,
       note="loop contracts on the three loops of the function (nothing unwound in it); bounded only by the harness arrays: n <= %d nodes, m <= %d edges" % (LC_N, LC_M)),
 ] + [
   Job("c19.wf_replay.s%d.bounded" % sc, "c19_dag.c", "h_wf_replay", kind="bounded", replace_calls=LIBC_DAG,
       cbmc=["--unwind", "50", "--unwinding-assertions", "--sat-solver", "cadical"], defines=["-DDAG_SCEN=%d" % sc],
-      fuc=["dr_pi_dag_enum_edges", "dr_pi_dag_sort_edges", "dr_pi_dag_set_edge_ptrs", "dr_pi_dag_chronological_traverse"], timeout=200,
+      fuc=["dr_pi_dag_enum_edges", "dr_pi_dag_sort_edges", "dr_pi_dag_set_edge_ptrs", "dr_pi_dag_chronological_traverse"], timeout=600,
       note="bounded: one concrete DAG of 14 nodes with a concrete serial schedule, contraction state at record time: %s" % what)
   for sc, what in SCENS
 ] + [
   Job("c19.copy.s%d.c%d.bounded" % (sc, cs), "c19_dag.c", "h_copy", kind="bounded", replace_calls=LIBC_DAG,
       cbmc=["--unwind", "30", "--unwinding-assertions", "--sat-solver", "cadical"], defines=["-DDAG_SCEN=%d" % sc, "-DCOPY_SCEN=%d" % cs],
-      fuc=["dr_copy_pi_dag", "dr_pi_dag_copy_and_prune_nodes", "dr_pi_dag_enum_edges", "dr_pi_dag_set_edge_ptrs", "dr_string_table_flatten"], timeout=250,
+      fuc=["dr_copy_pi_dag", "dr_pi_dag_copy_and_prune_nodes", "dr_pi_dag_enum_edges", "dr_pi_dag_set_edge_ptrs", "dr_string_table_flatten"], timeout=750,
       note="bounded: the same DAG, record-time state: %s; conversion-time setting: %s" % (what, cwhat))
   for sc, what in SCENS for cs, cwhat in ((0, "keep everything"), (1, "contract one-worker sections"), (2, "contract everything shorter than 7 clocks"))
 ] + [
@@ -51,7 +51,7 @@ JOBS = [
       replace_calls=["malloc:verif_malloc_mk", "free:verif_free", "memset:verif_memset", "qsort:verif_qsort", "exit:verif_exit"],
       cbmc=["--unwind", "30", "--unwinding-assertions", "--sat-solver", "cadical"], defines=["-DDAG_SCEN=%d" % sc],
       fuc=["dr_make_pi_dag", "dr_pi_dag_enum_nodes", "dr_dag_count_nodes", "dr_copy_dag_node_1", "dr_copy_children_nodes", "dr_string_table_intern",
-           "dr_pi_dag_enum_edges", "dr_pi_dag_set_edge_ptrs", "dr_string_table_flatten"], timeout=200,
+           "dr_pi_dag_enum_edges", "dr_pi_dag_set_edge_ptrs", "dr_string_table_flatten"], timeout=600,
       note="bounded: the pointer-based DAG of the same 14-node shape as the recorder leaves it, contraction state at record time: %s" % what)
   for sc, what in SCENS
 ]
